@@ -39,6 +39,11 @@ KINDS = {
     "bool-t": {"mk": lambda cc, **kw: cc.BoolField(**kw), "valid": ("on", True), "falsy": ("no", False), "invalid": "maybe", "decoy": "yes", "file": True, "file2": True, "assign": True, "default": True},
     "lookup": {"mk": lambda cc, **kw: cc.StringField(validator=lambda cfg, v: {"alpha": "alpha", "beta": "beta", "gamma": "gamma", "delta": "delta"}[v], **kw),
                "valid": ("beta", "beta"), "invalid": "zeta", "decoy": "gamma", "file": "alpha", "file2": "delta", "assign": "delta", "default": "alpha"},
+    # the variable is validated like an assigned value: for a bytes field its text *is* the value (no on-disk decoding)
+    "bytes": {"mk": lambda cc, **kw: cc.BytesField(**kw), "valid": ("aGVsbG8=", b"aGVsbG8="), "invalid": None, "decoy": "ZGVjb3k=", "file": "ZmlsZQ==", "file2": "ZmlsZTI=",
+              "assign": b"assigned", "default": b"dflt"},
+    "bytes-hex": {"mk": lambda cc, **kw: cc.BytesField("hex", **kw), "valid": ("6869", b"6869"), "invalid": None, "decoy": "00", "file": "66696c65", "file2": "66696c6532",
+                  "assign": b"assigned", "default": b"dflt"},
     "float": {"mk": lambda cc, **kw: cc.FloatField(**kw), "valid": ("2.5", 2.5), "falsy": ("0.0", 0.0), "invalid": "x", "decoy": "7.5", "file": 3.5, "file2": 4.5, "assign": 8.5, "default": 1.5},
 }
 CONTAINER_KINDS = {
@@ -162,6 +167,8 @@ def histories():
     for a in OPS:
         for b in OPS:
             hs.append([a, b])
+    # a document that names the key with an explicit null
+    hs += [["load_null"], ["loads_null"], ["load_null", "assign"], ["assign", "load_null"], ["load_tree", "loads_null"]]
     return hs
 
 
@@ -174,7 +181,8 @@ def jobs(tier):
     out = []
     for depth in (1, 2, 3):
         for ssets in itertools.product(SCHEMA_SET, repeat=depth):
-            out.append({"name": "d%d/%s" % (depth, "-".join(ssets)), "depth": depth, "ssets": list(ssets), "kinds": list(KINDS), "tier": tier})
+            kinds = list(KINDS) if depth < 3 or tier == "thorough" else [k for k in KINDS if not k.startswith("bytes")]
+            out.append({"name": "d%d/%s" % (depth, "-".join(ssets)), "depth": depth, "ssets": list(ssets), "kinds": kinds, "tier": tier})
     few = ["int", "str"] if tier != "thorough" else list(KINDS)
     for depth in (2, 3):
         for root in SCHEMA_SET:
@@ -205,6 +213,8 @@ def run_job(job, ctx):
                 for var in ("unset", "empty", "valid", "falsy", "invalid"):
                     if var == "falsy" and "falsy" not in KINDS[kind]:
                         continue
+                    if var == "invalid" and KINDS[kind].get("invalid") is None:
+                        continue
                     if only is not None and only[:4] != [fset, kind, with_default, var]:
                         continue
                     _world(ctx, job, cc, depth, ssets, fset, kind, with_default, var, only[4] if only else None)
@@ -233,6 +243,10 @@ def _run_history(cc, cfg, depth, k, hist):
             cfg.loads(json.dumps(tree_for(depth, k["file"])), "json")
         elif op == "assign":
             setattr(chained(cfg, depth), FKEY, k["assign"])
+        elif op == "load_null":
+            cfg.load_tree(tree_for(depth, None))
+        elif op == "loads_null":
+            cfg.loads(json.dumps(tree_for(depth, None)), "json")
 
 
 def _world(ctx, job, cc, depth, ssets, fset, kind, with_default, var, only_hist):
@@ -333,6 +347,8 @@ def _world(ctx, job, cc, depth, ssets, fset, kind, with_default, var, only_hist)
         states = {"unset": None, "valid": k["valid"][0], "other": k["decoy"], "invalid": k["invalid"]}
         for first, second in (("unset", "valid"), ("valid", "unset"), ("valid", "other"), ("invalid", "valid"), ("valid", "invalid"), ("unset", "invalid")):
             if first != var and second != var:
+                continue
+            if k["invalid"] is None and "invalid" in (first, second):
                 continue
             schema, field = build(cc, ssets, fset, depth, kind, with_default)
             results = []
